@@ -165,8 +165,9 @@ def handle_quic_packet(packet: Packet, keylog, quic_sessions: list[QuicSession],
                 return
         else:
             # match by checking all known cid lengths for session
-            for cid in session.client_cids | session.server_cids:
-                if cid == packet_payload[1:1 + len(cid)]:
+            # longest first, in a fixed order; a zero-length CID matches every packet and identifies nothing
+            for cid in sorted(session.client_cids | session.server_cids, key=lambda c: (-len(c), c)):
+                if len(cid) > 0 and cid == packet_payload[1:1 + len(cid)]:
                     session.handle_packet(packet, cid, quic_version)
                     return
 
